@@ -1,13 +1,14 @@
 #!/bin/sh
+R=${SA_REPO:-/repo}; export SA_REPO=$R   # the tree the patches are applied to (a scratch worktree while helper agents read /repo)
 # run every kept seeded change against its property's quick check; prints one line per seed
 cd /verif
-for d in seeded/*/; do
+for d in seeded/${1:-}*/; do
   id=$(basename $d); prop=${id%%-*}
-  if ! git -C /repo apply --check /verif/$d/patch.diff 2>/dev/null; then echo "$id patch does not apply"; continue; fi
-  git -C /repo apply /verif/$d/patch.diff
+  if ! git -C $R apply --check /verif/$d/patch.diff 2>/dev/null; then echo "$id patch does not apply"; continue; fi
+  git -C $R apply /verif/$d/patch.diff
   out=$(/venv/bin/python -m sa check $prop --tier quick 2>&1); rc=$?
-  git -C /repo checkout -- . 
+  git -C $R checkout -- . 
   rules=$(echo "$out" | grep -v KNOWN-FINDING | grep -o '\[R[^]]*\]' | sort -u | tr '\n' ' ')
   echo "$id rc=$rc $rules"
 done
-git -C /repo status --short | head -3
+git -C $R status --short | head -3
